@@ -167,6 +167,8 @@ class Executor(object):
         self._guard = []                  # short-circuit guards
         self._modconst_cache = {}
         self._fn_stack = []
+        self._fn_nodes = []
+        self.iter_hook = None
         self.n_paths = 0
         self._solver = None
         self.on_assign = None
@@ -225,6 +227,7 @@ class Executor(object):
                 env[p.arg] = args[p.arg]
         st.env = env
         self._fn_stack.append(fn.name)
+        self._fn_nodes.append(fn)
         try:
             outs = []
             for s2, sig in self.exec_block(fn.body, st):
@@ -239,6 +242,7 @@ class Executor(object):
             return outs
         finally:
             self._fn_stack.pop()
+            self._fn_nodes.pop()
 
     def eval_default(self, node, name):
         st = State()
@@ -508,9 +512,21 @@ class Executor(object):
         return out
 
     def _loop_key(self, node):
+        """(function name, ordinal): loops are numbered in source order
+        within their function (static, independent of the path taken)."""
         fn = self._fn_stack[-1] if self._fn_stack else ''
-        key = (fn, node.lineno, node.col_offset)
-        tab = self._loop_ordinal.setdefault(fn, {})
+        fnode = self._fn_nodes[-1] if self._fn_nodes else None
+        tab = self._loop_ordinal.get(id(fnode))
+        if tab is None:
+            tab = {}
+            if fnode is not None:
+                loops = [n for n in ast.walk(fnode)
+                         if isinstance(n, (ast.For, ast.While))]
+                loops.sort(key=lambda n: (n.lineno, n.col_offset))
+                for i, n in enumerate(loops):
+                    tab[(n.lineno, n.col_offset)] = i
+            self._loop_ordinal[id(fnode)] = tab
+        key = (node.lineno, node.col_offset)
         if key not in tab:
             tab[key] = len(tab)
         return fn, tab[key]
@@ -552,6 +568,9 @@ class Executor(object):
                 self.assign(node.target, item, s1)
                 for s2, sig in self.exec_block(node.body, s1):
                     if sig is None or sig[0] == 'continue':
+                        if self.iter_hook is not None:
+                            fn_, k_ = self._loop_key(node)
+                            self.iter_hook(self, fn_, k_, item, s2)
                         nxt.append(s2)
                     elif sig[0] == 'break':
                         out.append((s2, None))
@@ -1563,6 +1582,14 @@ class Executor(object):
                 return o.cls is not None and self.find_method(
                     o, args[1]) is not None
             raise VCError('hasattr on %r' % (o,))
+        if name == 'c_array':
+            dims = [int(a) for a in args]
+            if len(dims) == 1:
+                return [S.fresh('uninit') for _ in range(dims[0])]
+            return [[S.fresh('uninit') for _ in range(dims[1])]
+                    for _ in range(dims[0])]
+        if name == 'memcpy':
+            raise VCError('memcpy')
         if name == 'implies':
             return S.implies(args[0], args[1])
         if name == 'ite':
@@ -1715,7 +1742,8 @@ _CMP = {ast.Eq: '==', ast.NotEq: '!=', ast.Lt: '<', ast.LtE: '<=',
 _BUILTIN_NAMES = {'abs', 'min', 'max', 'float', 'int', 'len', 'range',
                   'print', 'bool', 'list', 'tuple', 'dict', 'sum',
                   'enumerate', 'zip', 'sorted', 'str', 'isinstance',
-                  'hasattr', 'declare', 'printf', 'implies', 'ite'}
+                  'hasattr', 'declare', 'printf', 'implies', 'ite',
+                  'c_array', 'fabs'}
 
 
 def _isqrt(n):
